@@ -80,5 +80,47 @@ def run():
     _, st = tlcrun.run_tlc("OptSys.tla", "OptSys_nooutputs.cfg", "selftest_opt2", coverage=False)
     expect(st.get("invariant_violated") == "OptRefines",
            "OptSys.tla without the not-an-output test (the defect repaired by 081decf) violates OptRefines")
+    # ---------------- direction B for the mechanism models (CIRKIT_VERIF hook of the compiler)
+    import os  # pylint: disable=import-outside-toplevel
+    from . import mech_trace  # pylint: disable=import-outside-toplevel
+    os.makedirs(tlcrun.WORK, exist_ok=True)
+    prefix = os.path.join(tlcrun.WORK, f"selftest_mech_{os.getpid()}")
+    os.environ["VERIF_MECH_TRACE"] = prefix
+    expect(mech_trace.install(), "the CIRKIT_VERIF hook of cirkit.backend.torch.compiler is present")
+    from cirkit.backend.torch.compiler import TorchCompiler  # pylint: disable=import-outside-toplevel
+    from cirkit.symbolic.circuit import Circuit  # pylint: disable=import-outside-toplevel
+    from cirkit.symbolic.layers import (  # pylint: disable=import-outside-toplevel
+        EmbeddingLayer, HadamardLayer, KroneckerLayer, SumLayer)
+    from cirkit.utils.scope import Scope  # pylint: disable=import-outside-toplevel
+    e1 = EmbeddingLayer(Scope([0]), 2, num_states=2)
+    e2 = EmbeddingLayer(Scope([1]), 2, num_states=2)
+    k = KroneckerLayer(2, arity=2)
+    s0 = SumLayer(4, 1, arity=1)
+    c1 = Circuit([e1, e2, k, s0], {k: [e2, e1], s0: [k]}, [s0])
+    hd = HadamardLayer(2, arity=2)
+    s1, s2 = SumLayer(2, 2, arity=1), SumLayer(2, 2, arity=1)
+    c2 = Circuit([e1, e2, hd, s1, s2], {hd: [e1, e2], s1: [hd], s2: [s1]}, [s2])
+    for c in (c1, c2):
+        for fold, opt in ((True, False), (False, True), (True, True)):
+            TorchCompiler(semiring="sum-product", fold=fold, optimize=opt).compile(c)
+    fold_recs, opt_recs, errs = mech_trace.collect(prefix)
+    rep2 = runner.Report("selftest", "quick", 0)
+    sm = mech_trace.validate_records(rep2, fold_recs, opt_recs, "selftest_ok")
+    expect(not errs and sm.get("fold_accepted") == len(fold_recs) > 0 and sm.get("opt_accepted") == len(opt_recs) > 0,
+           f"observed folding / fusion passes are accepted by TraceFold.tla / TraceOpt.tla: {sm}")
+    bad_fold = copy.deepcopy(fold_recs)
+    for r in bad_fold:
+        for b in r["book"]:
+            if b["kind"] == "none":
+                b["kind"], b["idx"] = "dim0", []       # the gather replaced by an unsqueeze
+    bad_opt = copy.deepcopy(opt_recs)
+    for r in bad_opt:
+        r["after"][-1]["ins"] = list(reversed(r["after"][-1]["ins"])) if len(r["after"][-1]["ins"]) > 1 \
+            else [1]                                   # a fused layer wired to other inputs
+    rep3 = runner.Report("selftest", "quick", 0)
+    n_none = sum(1 for r in fold_recs if any(b["kind"] == "none" for b in r["book"]))
+    sm = mech_trace.validate_records(rep3, bad_fold, bad_opt, "selftest_bad")
+    expect(sm.get("fold_accepted", 0) == len(fold_recs) - n_none and n_none > 0 and sm.get("opt_accepted", 0) == 0,
+           f"corrupted address-book entries / rewired fused layers are rejected: {sm}")
     print("selftest", "passed" if ok else "FAILED")
     return 0 if ok else 1
